@@ -55,7 +55,10 @@ MUTANTS = [
      'live_in = gen | (live_out - kill)', 'live_in = (gen | live_out) - kill',
      ['malt.pyct.static_analysis.liveness.Analyzer.visit_node']),
     ('c07-liveness-no-closure', 'malt/pyct/static_analysis/liveness.py',
-     'live_in |= (fn_scope.read - fn_scope.bound)', 'live_in |= (fn_scope.read - fn_scope.read)',
+     'live_in |= (fn_scope.read - (fn_scope.bound - fn_scope.nonlocals))', 'live_in |= (fn_scope.read - fn_scope.read)',
+     ['malt.pyct.static_analysis.liveness.Analyzer.visit_node']),
+    ('c07-liveness-closure-drops-nonlocals', 'malt/pyct/static_analysis/liveness.py',
+     'live_in |= (fn_scope.read - (fn_scope.bound - fn_scope.nonlocals))', 'live_in |= (fn_scope.read - fn_scope.bound)',
      ['malt.pyct.static_analysis.liveness.Analyzer.visit_node']),
     ('c07-liveness-kill-only-modified', 'malt/pyct/static_analysis/liveness.py',
      'kill = node_scope.modified | node_scope.deleted', 'kill = node_scope.modified | node_scope.read',
@@ -224,6 +227,24 @@ MUTANTS = [
      'self.scope = Scope(self.scope, isolated=isolated, function_name=f_name)',
      'self.scope = Scope(self.scope, isolated=True, function_name=f_name)',
      ['malt.pyct.static_analysis.activity.ActivityAnalyzer._enter_scope']),
+    ('c05-connect-forgets-prev', 'malt/pyct/cfg.py', '      second.prev.add(first)\n', '',
+     ['malt.pyct.cfg.GraphBuilder._connect_nodes#node']),
+    ('c05-new-node-edges-reversed', 'malt/pyct/cfg.py', '''    for leaf in self.leaves:
+      self._connect_nodes(leaf, node)''', '''    for leaf in self.leaves:
+      self._connect_nodes(node, leaf)''', ['malt.pyct.cfg.GraphBuilder._add_new_node']),
+    ('c05-new-node-skips-leaves', 'malt/pyct/cfg.py', '''    for leaf in self.leaves:
+      self._connect_nodes(leaf, node)''', '''    for leaf in self.leaves:
+      break''', ['malt.pyct.cfg.GraphBuilder._add_new_node']),
+    ('c05-freeze-drops-prev', 'malt/pyct/cfg.py', '    self.prev = weakref.WeakSet(self.prev)', '    self.prev = weakref.WeakSet()',
+     ['malt.pyct.cfg.Node.freeze']),
+    ('c05-ordinary-node-keeps-old-leaves', 'malt/pyct/cfg.py', '''    node = self._add_new_node(ast_node)
+    self.leaves = set((node,))''', '''    node = self._add_new_node(ast_node)
+    self.leaves = self.leaves | set((node,))''', ['malt.pyct.cfg.GraphBuilder.add_ordinary_node']),
+    ('c05-jump-node-cuts-edges-directly', 'malt/pyct/cfg.py', '''    node = self._add_new_node(ast_node)
+    self.leaves = set()''', '''    node = self._add_new_node(ast_node)
+    for leaf in self.leaves:
+      leaf.next.discard(node)
+    self.leaves = set()''', ['scan:C05']),
     ('c10-has-ignores-subkey', 'malt/pyct/cache.py', '    return subkey in parent', '    return True',
      ['malt.pyct.cache._TransformedFnCache.has']),
 ]
@@ -237,6 +258,13 @@ w = build_world()
 from vlib import hooks
 out = {}
 for n in sys.argv[1:]:
+    if n.startswith('scan:'):
+        import importlib
+        from vlib.report import Report
+        rep = Report(n[5:], 'quick', 0, 'other')
+        importlib.import_module('props.' + n[5:]).frame_scan(rep, 'quick')
+        out[n] = ['refuted' if rep.findings else 'proved', '', [f.key for f in rep.findings][:4]]
+        continue
     r = verify_contract(w, w.contracts[n], 30000)
     st = r.status
     if st == 'undecided' and any(o.status == 'unknown' for o in r.obligations):
